@@ -1851,12 +1851,12 @@ func TestC34(t *testing.T) {
 	})
 	if !r.Replaying() {
 		r.Require("hammer_streams_compared", nBlocks*hammerBlockN)
-		r.Require("executions", nCfg*2)
+		r.Require("executions", nCfg*3/2)
 		r.Require("close_counts_judged", nCfg)
 		r.Require("bodies_compared_own_decoder", nCfg/8)
 		r.Require("bodies_compared_nethttp", nCfg/8)
 		r.Require("chunked_bodies", nCfg/40)
-		r.Require("faults_injected", nCfg)
+		r.Require("faults_injected", nCfg*3/4)
 		r.Require("stream_panics_injected", nCfg/20)
 		r.Require("fault_prefix_checked", nCfg/20)
 		r.Require("compressed_close_counts_judged_after_goroutine_exit", nCfg/20)
